@@ -19,7 +19,8 @@ OV = os.path.join(vlib.HARNESS, "overlay")
 
 
 def _kind(mode):
-    return {"none": None, "cancel": "KCancel", "race": "KCancel", "pre": "KCancel", "deadline": "KDeadline"}[mode]
+    return {"none": None, "cancel": "KCancel", "race": "KCancel", "pre": "KCancel", "deadline": "KDeadline",
+            "stall": "KCancel"}[mode]
 
 
 class C04(Property):
@@ -263,9 +264,24 @@ class C04(Property):
                 res.append(c)
         return res
 
+    def _corpus_stall(self):
+        """a slow client: the Write that the handler's first effective Flush makes on the real writer stalls, the
+        request is cancelled meanwhile, then the stall is lifted.  Flush checks timedOut and writes under ONE
+        critical section: the timeout reply comes after the flushed chunk, never in the middle of the Flush, and
+        nothing of the handler follows it (seeded C04-7: check and write split)."""
+        own = [[1, [5]]]
+        res = []
+        for script in ([["w", [200]], ["flush"], ["w", [201]]],
+                       [["set", 1, 7], ["wh", 404], ["w", [200, 201]], ["flush"], ["w", [202]], ["flush"]],
+                       [["flush"]],
+                       [["w", [200]], ["rcflush"], ["chk"], ["w", [201]]]):
+            res.append(dict(self._rest(script, own, "stall", 0, fl=True), paths_done=True))
+        res.append(dict(self._rest([["w", [200]], ["flush"], ["panic", 2]], [], "stall", 0, fl=True, rec=True), paths_done=True))
+        return res
+
     def corpus(self):
         s1 = [["set", 1, 7], ["wh", 201], ["w", [200, 201]], ["set", 2, 9], ["w", [202]]]
-        res = self._corpus_recover()
+        res = self._corpus_recover() + self._corpus_stall()
         for pos in range(0, 7):
             for mode in ("cancel", "deadline", "race"):
                 res.append(self._rest(s1, [[1, [5]]], mode, pos, yld=pos % 3))
@@ -517,6 +533,8 @@ class C04(Property):
              "script": script, "d": {"mode": mode, "pos": pos, "yield": yld}}
         if rec:
             c["rec"] = True          # handler.RecoverHandler between the timeout middleware and the work
+        if mode == "stall":
+            c["stall"] = True        # slow client: D falls INSIDE the handler's first effective Flush
         return c
 
     @staticmethod
@@ -605,6 +623,9 @@ class C04(Property):
                 else:
                     cases.append(self._rest(script, h0, "deadline", pos, dur=HOUR, parent=SHORT, fl=fl, rec=rec))
                 cases.append(self._rest(script, h0, "race", pos, parent=par, yld=rng.choice([0, 0, 1, 3, 8]), fl=fl, rec=rec))
+            if fl and any(a[0] == "flush" for a in script):
+                # slow client: the Done event inside the first effective Flush
+                cases.append(self._rest(script, h0, "stall", 0, parent=par, fl=fl, rec=rec))
             x = rng.random()
             pos = rng.randint(0, steps)
             if x < 0.25:
@@ -1250,6 +1271,10 @@ class C04(Property):
         raise ExecError("unknown kind")
 
     def _seq_reqs(self, c, o):
+        if o.get("hung") and o.get("stuck", -1) >= 0:
+            o = dict(o)             # see _hung_rest
+            o["sched"] = list(o["sched"]) + [[o["stuck"], "H"]]
+            o["hobs"] = list(o["hobs"]) + [[o["stuck"], "werr"]]
         dk = {}
         for e in c["order"]:
             if e[0] == "D" and e[1] not in dk:
@@ -1396,7 +1421,20 @@ class C04(Property):
                     alts.append(cand)
         return alts[:40]
 
+    @staticmethod
+    def _hung_rest(o):
+        """a handler action that hung inside rest/handler has no counterpart in the model (every H action is
+        enabled there): it is reported as one more handler event with a result no model action produces, so that
+        the case disagrees even when the response itself is in order (abandoned handler stuck after the timeout)"""
+        if not o.get("hung"):
+            return o
+        o = dict(o)
+        o["sched"] = list(o["sched"]) + ["H"]
+        o["hobs"] = list(o["hobs"]) + [["werr"]]
+        return o
+
     def _coq_rest(self, c, o):
+        o = self._hung_rest(o)
         rq = {"plain": "RqPlain", "ws": "RqWebsocket", "sse": "RqSSE"}[c["req"]]
         sout = {"wait": "SoWait", "ret": "SoRet"}.get(o["sout"])
         if sout is None:
